@@ -11,6 +11,7 @@ import (
 	"hash/fnv"
 	"os"
 	"path/filepath"
+	"reflect"
 	"regexp"
 	"runtime"
 	"runtime/debug"
@@ -789,4 +790,17 @@ func (h *HexBytes) UnmarshalJSON(b []byte) error {
 	}
 	*h = out
 	return nil
+}
+
+// AssignExported copies every exported field of *src into *dst (both pointers to the same struct type) and leaves
+// the unexported fields of *dst as they are: what a caller does who changes the public fields of an object it has
+// already used (any cache the object keeps in unexported fields stays behind).
+func AssignExported(dst, src interface{}) {
+	d, s := reflect.ValueOf(dst).Elem(), reflect.ValueOf(src).Elem()
+	t := d.Type()
+	for i := 0; i < t.NumField(); i++ {
+		if t.Field(i).PkgPath == "" {
+			d.Field(i).Set(s.Field(i))
+		}
+	}
 }
